@@ -532,6 +532,7 @@ func entryPointCases(pr *pProbe, opts []participle.Option) {
 			}
 		}
 	}
+	mapperOrderCases(pr)
 	// Trace changes nothing
 	long := strings.Repeat("x", 60)
 	pi, err := participle.Build[pbIdents](opts...)
@@ -651,4 +652,76 @@ func buildCases(pr *pProbe) {
 	buildOne[bdBadRepeat](pr, true)
 	buildOne[bdNoGrammar](pr, true)
 	buildOne[bdBadStructCap](pr, true)
+}
+
+
+// ---- mappers (C18): untyped mappers first, then the mappers of the token's own type, each once, in registration order ----
+
+type pbAny struct {
+	T []string `( @Ident | @Int | @String )*`
+}
+
+func mapperOrderCases(pr *pProbe) {
+	tagger := func(tag string) participle.Mapper {
+		return func(t lexer.Token) (lexer.Token, error) {
+			if !t.EOF() {
+				t.Value += tag
+			}
+			return t, nil
+		}
+	}
+	for nGlobal := 0; nGlobal <= 5; nGlobal++ {
+		// registration order interleaves untyped and typed mappers
+		opts := []participle.Option{participle.Lexer(probeLexer), participle.Elide("Whitespace", "Comment")}
+		wantGlobal := ""
+		want := map[string]string{"Ident": "", "Int": "", "String": ""}
+		add := func(tag string, symbols ...string) {
+			opts = append(opts, participle.Map(tagger(tag), symbols...))
+			if len(symbols) == 0 {
+				wantGlobal += tag
+			}
+			for _, sy := range symbols {
+				want[sy] += tag
+			}
+		}
+		add("<i1>", "Ident")
+		for g := 0; g < nGlobal; g++ {
+			add(fmt.Sprintf("<g%d>", g))
+			if g == 0 {
+				add("<s1>", "String")
+			}
+			if g == 1 {
+				add("<is>", "Ident", "String")
+			}
+		}
+		add("<n1>", "Int")
+		add("<i2>", "Ident")
+		p, err := participle.Build[pbAny](opts...)
+		if err != nil {
+			pr.fail("mapper order: Build with %d untyped mappers: %v", nGlobal, err)
+			continue
+		}
+		input := `ab 12 "q" cd "r" 7 ef`
+		kinds := []string{"Ident", "Int", "String", "Ident", "String", "Int", "Ident"}
+		raw := []string{"ab", "12", `"q"`, "cd", `"r"`, "7", "ef"}
+		for round := 0; round < 2; round++ {
+			pr.Tried++
+			v, perr, ok := tryParse(pr, p, "mapper order grammar", input)
+			if !ok {
+				continue
+			}
+			if perr != nil || len(v.T) != len(raw) {
+				pr.fail("mapper order: %d untyped mappers, input %q: %v %v", nGlobal, input, v, perr)
+				continue
+			}
+			for i := range raw {
+				exp := raw[i] + wantGlobal + want[kinds[i]]
+				if v.T[i] != exp {
+					pr.fail("mapper order: with %d untyped Map() options and typed mappers on Ident, String and Int, the %s token %q of %q came out as %q; untyped mappers first and then the token type's own, in registration order, give %q (parse %d)",
+						nGlobal, kinds[i], raw[i], input, v.T[i], exp, round+1)
+					break
+				}
+			}
+		}
+	}
 }
